@@ -40,7 +40,7 @@ def run(ctx):
     defs = ctx.path("defs.json")
     ctx.run_mvh(["defs", "-out", defs])
     mod = 1 if ctx.thorough() else 10
-    rc, out = ctx.tlc("Gen_Gate", env={"DEFS": defs, "DIALECT": defs + ".all.json", "VECMOD": mod, "VECOFF": ctx.seed % mod},
+    rc, out = ctx.tlc("Gen_Gate", env={"DEFS": defs, "DIALECT": defs + ".allplus.json", "VECMOD": mod, "VECOFF": ctx.seed % mod},
                       tag="gen:gate", timeout=1200)
     nvec = _stream.parse_vec_lines(out, ctx.path("gatevec.ndjson"))
     if nvec == 0:
